@@ -48,6 +48,8 @@ void setup(void) { OBJ = (struct obj *)malloc(sizeof(struct obj)); OBJ->v = 7; }
 void reg(void) {
 #if FLAVOR != 4
   rcu_register_thread();
+#else
+  urcu_bp_register_thread();                       /* bp: forced early registration (the lazy path is exercised by the C15 bp obligation) */
 #endif
 #if FLAVOR == 3
   cs_begin();                                      /* online from registration on */
@@ -80,6 +82,7 @@ static inline void section(int nested) {
 /* C19: signal handler with a read-side critical section; runs on the interrupted thread's slot */
 #if FLAVOR == 4
 #define READER_CTR() (URCU_TLS(urcu_bp_reader) ? URCU_TLS(urcu_bp_reader)->ctr : 0)
+#define URCU_GP_CTR_NEST_MASK URCU_BP_GP_CTR_NEST_MASK
 #else
 #define READER_CTR() (URCU_TLS(rcu_reader).ctr)
 #endif
